@@ -305,8 +305,20 @@ class Harness(object):
             if cfg['render'].get('script'):
                 self.scripts['rn'] = cfg['render']['script']
         self.ep_result = 'context' if rn is not None else 'response'
-        pattern = '/r' + ''.join('/<%s>' % n for n in cfg.get('url', []))
-        self.path = '/r' + ''.join('/u_%s' % n for n in cfg.get('url', []))
+        self.url_values = {}
+        if cfg.get('url_optional'):
+            # a leaf pattern made only of optional bindings, served in strict mode: '/' is the empty assignment
+            pattern = ''.join('/<%s?>' % n for n in cfg.get('url', [])) or '/r'
+            self.path = ''.join('/u_%s' % n for n in cfg.get('url', [])) or '/r'
+            self.path_absent = '/'
+        else:
+            pattern = '/r' + ''.join('/<%s>' % n for n in cfg.get('url', []))
+            self.path = '/r' + ''.join('/u_%s' % n for n in cfg.get('url', []))
+            self.path_absent = None
+        prefix = '/' + ''.join('<%s>' % n for n in cfg.get('prefix_url', [])) if cfg.get('prefix_url') else '/'
+        if cfg.get('prefix_url'):
+            self.path = ''.join('/u_%s' % n for n in cfg['prefix_url']) + self.path
+        slash_kw = {'slash_mode': cfg['slash_mode']} if cfg.get('slash_mode') else {}
         route_res = dict((n, self.value(('res', n))) for n in cfg.get('route_res', []))
         app_res = dict((n, self.value(('res', n))) for n in cfg.get('app_res', []))
         outer_res = dict((n, self.value(('res', n))) for n in cfg.get('outer_res', []))
@@ -324,17 +336,20 @@ class Harness(object):
         if error_handler is not None and not has_outer:
             kw['error_handler'] = error_handler
         if construct == 'add':
+            kw.update(slash_kw)
             app = Application([], resources=app_res, middlewares=app_mws, **kw)
             app.add(route)
             for sr in sibling:
                 app.add(sr)
         elif construct == 'bind':
+            kw.update(slash_kw)
             app = Application([], resources=app_res, middlewares=app_mws, **kw)
             route.bind(app)
             app.add(route)
             for sr in sibling:
                 app.add(sr)
         else:
+            kw.update(slash_kw)
             app = Application(self.decoy_entries(cfg, decoys) + [route] + sibling, resources=app_res, middlewares=app_mws, **kw)
         if has_outer:
             kw = {}
@@ -343,9 +358,9 @@ class Harness(object):
             outer_mws = [x for x, m in zip(insts, cfg['mws']) if m['level'] == 'outer']
             if construct == 'add':
                 outer = Application([], resources=outer_res, middlewares=outer_mws, **kw)
-                outer.add(SubApplication('/', app))
+                outer.add(SubApplication(prefix, app))
             else:
-                outer = Application([('/', app)], resources=outer_res, middlewares=outer_mws, **kw)
+                outer = Application([(prefix, app)], resources=outer_res, middlewares=outer_mws, **kw)
             self.inner_app = app
             app = outer
         self.app = app
@@ -396,7 +411,10 @@ def verify_wiring(h, wiring, trace, serving_app):
                 if not callable(val):
                     bad.append(('next', '%s: next is %r' % (fid, val)))
             elif kind == 'url':
-                if val != h.value(src):
+                if src[1] in h.url_values:
+                    if val != h.url_values[src[1]] or type(val) is not type(h.url_values[src[1]]):
+                        bad.append(('url', '%s.%s = %r, expected URL value %r' % (fid, name, val, h.url_values[src[1]])))
+                elif val != h.value(src):
                     bad.append(('url', '%s.%s = %r, expected URL value %r' % (fid, name, val, h.value(src))))
             elif kind in ('res', 'mw'):
                 if val is not h.value(src):
